@@ -13,6 +13,7 @@ type ctxObj struct {
 	done        *Chan
 	err         Value // Iface
 	hasDeadline bool
+	deadline    Value // time.Time; nil = the end of the modelled time window (never passes)
 	name        string
 }
 
@@ -22,6 +23,9 @@ func (p *Path) ctxType() types.Type {
 
 func (p *Path) newCtx(parent *ctxObj, withDone, deadline bool) Value {
 	c := &ctxObj{parent: parent, hasDeadline: deadline || (parent != nil && parent.hasDeadline), err: Iface{}}
+	if parent != nil {
+		c.deadline = parent.deadline
+	}
 	if withDone {
 		c.done = p.makeChanOf(types.NewStruct(nil, nil))
 		c.done.name = "ctx.Done"
@@ -31,7 +35,13 @@ func (p *Path) newCtx(parent *ctxObj, withDone, deadline bool) Value {
 	var no *NativeObj
 	no = &NativeObj{Kind: "context", T: p.ctxType(), Data: c, Methods: map[string]*NativeFunc{
 		"Deadline": {Name: "ctx.Deadline", F: func(p *Path, g *Goroutine, a []Value) Value {
-			return Tuple{p.zero(p.eng.namedType("time", "Time")), p.ctx.Bool(c.hasDeadline)}
+			if !c.hasDeadline {
+				return Tuple{p.zero(p.eng.namedType("time", "Time")), p.ctx.F}
+			}
+			if c.deadline != nil {
+				return Tuple{copyVal(c.deadline), p.ctx.T}
+			}
+			return Tuple{p.timeAt(p.ctx.BV(1<<36+1<<35, 64)), p.ctx.T}
 		}},
 		"Done": {Name: "ctx.Done", F: func(p *Path, g *Goroutine, a []Value) Value {
 			if c.done == nil {
@@ -88,6 +98,25 @@ func init() {
 			parent := p.ctxOf(a[0])
 			cv := p.newCtx(parent, true, deadline)
 			c := p.ctxOf(cv)
+			if deadline && len(a) > 1 {
+				switch d := a[1].(type) {
+				case *Term: // WithTimeout: the deadline is an instant of the symbolic clock plus d
+					if d.IsConst() && (parent == nil || parent.deadline == nil) {
+						now := p.now().(Struct)
+						var ext *Term
+						for _, f := range now {
+							if t, ok := f.(*Term); ok && !t.IsConst() {
+								ext = t
+							}
+						}
+						c.deadline = p.timeAt(p.ctx.Add(ext, p.ctx.BV(uint64(int64(d.K)/1e9), 64)))
+					}
+				case Struct: // WithDeadline
+					if parent == nil || parent.deadline == nil {
+						c.deadline = d
+					}
+				}
+			}
 			if parent != nil && parent.done != nil {
 				// a child created from a cancellable parent shares the parent's fate:
 				// approximate by sharing the Done channel
